@@ -11,6 +11,7 @@ import (
 	"net/url"
 	"sort"
 	"strings"
+	"time"
 
 	"github.com/vulcand/oxy/v2/internal/holsterv4/clock"
 	"github.com/vulcand/oxy/v2/roundrobin"
@@ -96,15 +97,27 @@ func (v variant) String() string {
 	return s
 }
 
+// scriptMeter lets the harness decide what the rebalancer observes (public RebalancerMeter option).
+type scriptMeter struct {
+	rating float64
+	ready  bool
+}
+
+func (m *scriptMeter) Rating() float64           { return m.rating }
+func (m *scriptMeter) Record(int, time.Duration) {}
+func (m *scriptMeter) IsReady() bool             { return m.ready }
+
 type sys struct {
-	v        variant
-	rr       *roundrobin.RoundRobin
-	rb       *roundrobin.Rebalancer
-	ref      ref
-	calls    int
-	seen     string // URL the handler observed, as a string, before any rewriting
-	rewrite  bool
-	lastCode int
+	meters    map[string]*scriptMeter // by server identity (rebalancer variants)
+	upserting string
+	v         variant
+	rr        *roundrobin.RoundRobin
+	rb        *roundrobin.Rebalancer
+	ref       ref
+	calls     int
+	seen      string // URL the handler observed, as a string, before any rewriting
+	rewrite   bool
+	lastCode  int
 }
 
 func (s *sys) front() interface {
@@ -141,7 +154,14 @@ func newSys(v variant) *sys {
 		if err != nil {
 			panic(err)
 		}
-		var opts []roundrobin.RebalancerOption
+		s.meters = map[string]*scriptMeter{}
+		opts := []roundrobin.RebalancerOption{roundrobin.RebalancerBackoff(time.Second), roundrobin.RebalancerMeter(func() (roundrobin.Meter, error) {
+			m := &scriptMeter{ready: true}
+			if s.upserting != "" {
+				s.meters[s.upserting] = m
+			}
+			return m, nil
+		})}
 		if v.sticky {
 			opts = append(opts, roundrobin.RebalancerStickySession(roundrobin.NewStickySession("sid")))
 		}
@@ -175,7 +195,7 @@ func (s *sys) request(rewrite bool, cookie string) (served bool, seen string, co
 }
 
 type opDesc struct {
-	kind   int // 0 request, 1 request+rewrite, 2 upsert, 3 remove, 4 cookie request + rewrite, 5 cookie request
+	kind   int // 0 request, 1 request+rewrite, 2 upsert, 3 remove, 4 cookie request + rewrite, 5 cookie request, 6 request while one server is rated bad, 7 advance the clock
 	url    int
 	weight int // -1 = no option
 }
@@ -192,6 +212,15 @@ func alphabet(v variant, tier string) ([]string, []opDesc) {
 			names = append(names, fmt.Sprintf("ReqCookie(u%d)Rewriting", u), fmt.Sprintf("ReqCookie(u%d)", u))
 			descs = append(descs, opDesc{4, u, 0}, opDesc{5, u, 0})
 		}
+	}
+	if v.rebalancer {
+		// let the rebalancer actually adjust weights: a request while one member is rated as failing
+		for _, u := range []int{0, 1} {
+			names = append(names, fmt.Sprintf("ReqWhileBad(u%d)", u))
+			descs = append(descs, opDesc{6, u, 0})
+		}
+		names = append(names, "Advance(2s)")
+		descs = append(descs, opDesc{7, 0, 0})
 	}
 	for u := 0; u < nurl; u++ {
 		names = append(names, fmt.Sprintf("Upsert(u%d)", u))
@@ -227,12 +256,26 @@ func model(v variant, tier string, depth int) *lib.Model[*sys] {
 		case 4, 5:
 			ok, seen, code := s.request(d.kind == 4, u.String())
 			return fmt.Sprintf("%v/%s/%d", ok, seen, code)
+		case 6:
+			for id, mt := range s.meters {
+				mt.rating, mt.ready = 0, true
+				if id == identity(u) {
+					mt.rating = 1
+				}
+			}
+			ok, seen, code := s.request(false, "")
+			return fmt.Sprintf("%v/%s/%d", ok, seen, code)
+		case 7:
+			clock.Advance(2 * time.Second)
+			return ""
 		case 2:
 			var opts []roundrobin.ServerOption
 			if d.weight >= 0 {
 				opts = append(opts, roundrobin.Weight(d.weight))
 			}
+			s.upserting = identity(u)
 			err := s.front().UpsertServer(u, opts...)
+			s.upserting = ""
 			if err == nil {
 				s.ref.upsert(u, d.weight)
 			}
@@ -242,6 +285,7 @@ func model(v variant, tier string, depth int) *lib.Model[*sys] {
 			known := s.ref.find(identity(u)) >= 0
 			if err == nil {
 				s.ref.remove(u)
+				delete(s.meters, identity(u))
 			}
 			return fmt.Sprintf("%v/known=%v", err, known)
 		}
@@ -257,7 +301,8 @@ func model(v variant, tier string, depth int) *lib.Model[*sys] {
 	dumper := lib.Dumper{}
 	m.Key = func(s *sys) string {
 		if s.v.rebalancer {
-			return dumper.Dump(s.rb) // reaches the wrapped balancer through rb.next
+			d2 := lib.Dumper{Now: clock.Now().UTC(), Relative: true}
+			return d2.Dump(s.rb) // reaches the wrapped balancer through rb.next
 		}
 		return dumper.Dump(s.rr)
 	}
@@ -321,6 +366,9 @@ func check(s *sys, m *lib.Model[*sys], descs []opDesc, hist []int, obs []string,
 	// (2) weights
 	for _, mb := range s.ref.members {
 		w, ok := s.rr.ServerWeight(mustURL(mb.stored)) // the rebalancer exposes weights through the balancer it wraps
+		if s.v.rebalancer && ok && (w == 0) == (mb.weight == 0) {
+			continue // the rebalancer may scale positive weights; a drained (0) server stays drained, a live one stays live
+		}
 		if !ok || w != mb.weight {
 			rep.Violate(prop+":weight-differs:"+vk, fmt.Sprintf("ServerWeight(%s) = %d,%v; calls so far define %d", mb.stored, w, ok, mb.weight), what())
 			return
@@ -334,11 +382,21 @@ func check(s *sys, m *lib.Model[*sys], descs []opDesc, hist []int, obs []string,
 			}
 		}
 	}
-	// (3) one full rotation from this state selects exactly the positive-weight members
+	// (3) one full rotation from this state selects exactly the positive-weight members (the
+	// rebalancer is kept from re-weighting during the rotation: its meters report "not ready")
+	for _, mt := range s.meters {
+		mt.ready = false
+	}
 	sum, g := 0, 0
 	for _, mb := range s.ref.members {
-		sum += mb.weight
-		g = gcd(g, mb.weight)
+		w := mb.weight
+		if s.v.rebalancer {
+			if ew, ok := s.rr.ServerWeight(mustURL(mb.stored)); ok && (ew == 0) == (mb.weight == 0) {
+				w = ew // rotation length follows the effective weights
+			}
+		}
+		sum += w
+		g = gcd(g, w)
 	}
 	if sum == 0 {
 		rep.Count("states_with_unservable_pool")
@@ -399,7 +457,7 @@ func checkLast(s *sys, m *lib.Model[*sys], descs []opDesc, hist []int, obs []str
 		d := descs[hist[n-1]]
 		o := obs[n-1]
 		switch d.kind {
-		case 0, 1, 4, 5:
+		case 0, 1, 4, 5, 6:
 			parts := strings.SplitN(o, "/", 2)
 			served := parts[0] == "true"
 			seen := parts[1][:strings.LastIndex(parts[1], "/")]
